@@ -95,6 +95,7 @@ type State struct {
 	calls     []callRec // ghost log of calls into code outside the verified module (library / external), with argument terms
 	callsOpen bool      // an unknown number of unknown calls precedes calls[0] (loop head, merge, modular call)
 	epoch   *Term // changes whenever the heap may have changed (results of heap-reading pure calls depend on it)
+	hgen    string // non-empty after a havoc of the whole heap: names the unknown initial value of heaps first touched later
 	xepoch  *Term // like epoch, but unchanged by stores into memory the font packages cannot read (see ephemeralHeap)
 	env     map[types.Object]*Term
 	heap    map[string]*Term
@@ -114,7 +115,7 @@ func (s *State) clone() *State {
 		epochCounter++
 		s.xepoch = Var(fmt.Sprintf("xepoch!c%d", epochCounter), SInt)
 	}
-	n := &State{env: make(map[types.Object]*Term, len(s.env)), heap: make(map[string]*Term, len(s.heap)), dead: s.dead, epoch: s.epoch, xepoch: s.xepoch}
+	n := &State{env: make(map[types.Object]*Term, len(s.env)), heap: make(map[string]*Term, len(s.heap)), dead: s.dead, epoch: s.epoch, xepoch: s.xepoch, hgen: s.hgen}
 	for k, v := range s.env {
 		n.env[k] = v
 	}
@@ -384,6 +385,7 @@ func (x *Exec) merge(base *State, states ...*State) *State {
 	m := &State{env: map[types.Object]*Term{}, heap: map[string]*Term{}}
 	m.epoch = live[0].epoch
 	m.xepoch = live[0].xepoch
+	m.hgen = live[0].hgen
 	m.log = append([]string(nil), live[0].log...)
 	m.logBad = live[0].logBad
 	m.calls = append([]callRec(nil), live[0].calls...)
@@ -408,6 +410,11 @@ func (x *Exec) merge(base *State, states ...*State) *State {
 		}
 		if s.xepoch != m.xepoch {
 			m.xepoch = nil
+		}
+		if s.hgen != m.hgen {
+			// heaps untouched on both paths have different unknown initial values: a new unknown for the merged state
+			epochCounter++
+			m.hgen = fmt.Sprintf("hm%d", epochCounter)
 		}
 		if s.logBad || strings.Join(s.log, "\x00") != strings.Join(m.log, "\x00") {
 			m.logBad = true
@@ -487,7 +494,11 @@ func (x *Exec) heapGet(s *State, name string, sort *Sort) *Term {
 		return t
 	}
 	t := x.heapInit(name, sort)
-	// all states derived from the entry state see the same initial symbol
+	// all states derived from the entry state see the same initial symbol; after a havoc of the whole heap a heap that
+	// had not been touched before is a different unknown (named after that havoc event)
+	if t != nil && s.hgen != "" && name != "$alloc" && name != "$balloc" && !strings.HasPrefix(name, "G_") {
+		t = Var(name+"@"+s.hgen, t.S)
+	}
 	s.heap[name] = t
 	return t
 }
@@ -547,6 +558,8 @@ func (x *Exec) havocHeap(s *State, name string) {
 }
 
 func (x *Exec) havocAllHeap(s *State) {
+	epochCounter++
+	s.hgen = fmt.Sprintf("hv%d", epochCounter)
 	names := make([]string, 0, len(heapSorts))
 	for k := range heapSorts {
 		names = append(names, k)
